@@ -14,22 +14,94 @@ func init() { register("C01", checkC01) }
 
 // ---------------------------------------------------------------- hash transcripts
 
-// transcriptFuncs finds the module functions with signature
-// (hash.Hash, *ipmi.RAKPMessage1, *ipmi.RAKPMessage2) []byte.
+// transcriptFuncs finds the module functions that compute a digest over the two RAKP
+// messages: they return []byte, take one hash.Hash, and reach RAKP Message 1 and 2 through
+// their parameters — either directly (hash.Hash, *ipmi.RAKPMessage1, *ipmi.RAKPMessage2), or
+// through one parameter or receiver of a module struct type that holds both messages.
 func (c *Ctx) transcriptFuncs() []*ssa.Function {
-	m1 := c.Named("pkg/ipmi", "RAKPMessage1")
-	m2 := c.Named("pkg/ipmi", "RAKPMessage2")
 	var out []*ssa.Function
 	for _, fn := range c.LibFuncs() {
-		if len(fn.Params) != 3 || fn.Signature.Recv() != nil {
-			continue
+		if c.transcriptParams(fn) != nil {
+			out = append(out, fn)
 		}
-		if !isHashHash(fn.Params[0].Type()) || !isPtrTo(fn.Params[1].Type(), m1) || !isPtrTo(fn.Params[2].Type(), m2) {
-			continue
-		}
-		out = append(out, fn)
 	}
 	return out
+}
+
+// trParams says where a transcript function takes its hash and its messages from.
+type trParams struct {
+	Hash   int // index in fn.Params
+	M1, M2 int // index in fn.Params of the *RAKPMessage1 / *RAKPMessage2 parameter, or -1
+	Holder int // index of the struct parameter holding both messages, or -1
+	F1, F2 *types.Var
+}
+
+func (c *Ctx) transcriptParams(fn *ssa.Function) *trParams {
+	m1 := c.Named("pkg/ipmi", "RAKPMessage1")
+	m2 := c.Named("pkg/ipmi", "RAKPMessage2")
+	if m1 == nil || m2 == nil || fn.Signature.Results().Len() != 1 || fn.Synthetic != "" {
+		return nil
+	}
+	if sl, ok := fn.Signature.Results().At(0).Type().Underlying().(*types.Slice); !ok || !isByte(sl.Elem()) {
+		return nil
+	}
+	tp := &trParams{Hash: -1, M1: -1, M2: -1, Holder: -1}
+	for i, p := range fn.Params {
+		switch {
+		case isHashHash(p.Type()):
+			if tp.Hash >= 0 {
+				return nil
+			}
+			tp.Hash = i
+		case isPtrTo(p.Type(), m1):
+			if tp.M1 >= 0 {
+				return nil
+			}
+			tp.M1 = i
+		case isPtrTo(p.Type(), m2):
+			if tp.M2 >= 0 {
+				return nil
+			}
+			tp.M2 = i
+		default:
+			t := p.Type()
+			if pt, ok := t.Underlying().(*types.Pointer); ok {
+				t = pt.Elem()
+			}
+			st, ok := t.Underlying().(*types.Struct)
+			if !ok || !isStateStructType(t) {
+				continue
+			}
+			var f1, f2 *types.Var
+			n1, n2 := 0, 0
+			for j := 0; j < st.NumFields(); j++ {
+				if isPtrTo(st.Field(j).Type(), m1) {
+					f1 = st.Field(j)
+					n1++
+				}
+				if isPtrTo(st.Field(j).Type(), m2) {
+					f2 = st.Field(j)
+					n2++
+				}
+			}
+			if n1 == 1 && n2 == 1 {
+				if tp.Holder >= 0 {
+					return nil
+				}
+				tp.Holder, tp.F1, tp.F2 = i, f1, f2
+			}
+		}
+	}
+	if tp.Hash < 0 {
+		return nil
+	}
+	if tp.M1 >= 0 && tp.M2 >= 0 && tp.Holder < 0 {
+		return tp
+	}
+	if tp.M1 < 0 && tp.M2 < 0 && tp.Holder >= 0 {
+		return tp
+	}
+	return nil
 }
 
 func isHashHash(t types.Type) bool {
@@ -221,9 +293,14 @@ func describeByte(fn *ssa.Function, p CPath, v ssa.Value) string {
 // the flattened view.
 func transcriptOf(c *Ctx, fn *ssa.Function) (seqs map[string]bool, shape string) {
 	seqs = map[string]bool{}
-	h := fn.Params[0]
-	// the requested privilege level occupies four bits on the wire (IPMI defines levels 0–5)
-	evs, why := extractEvents(c, fn, map[string]int{"m1.MaxPrivilegeLevel": 4})
+	tp := c.transcriptParams(fn)
+	if tp == nil {
+		return seqs, "not a transcript function"
+	}
+	h := fn.Params[tp.Hash]
+	// the requested privilege level occupies four bits on the wire (IPMI defines levels 0–5);
+	// the two messages are named by their type, however the function gets hold of them
+	evs, why := extractEventsNamed(c, fn, map[string]int{"m1.MaxPrivilegeLevel": 4}, nil, rakpTypeNames(c))
 	if why != "" {
 		return seqs, why
 	}
@@ -483,7 +560,11 @@ func checkKeyWiring(c *Ctx, r *Report, tr map[string]*trSite) {
 			return false
 		}
 		a := apOf(ld.X)
-		return a.Root == ssa.Value(m.Opts) && a.SelString() == field
+		if a.Root == ssa.Value(m.Opts) && a.SelString() == field {
+			return true
+		}
+		root, last := canonRootSel(ld.X)
+		return root == ssa.Value(m.Opts) && last == field
 	}
 	// hashFrom: the keyed hash a value denotes — made by a method of the algorithm's parameter
 	// set from a key, or by hmac.New(hash constructor, key) written out
@@ -510,6 +591,7 @@ func checkKeyWiring(c *Ctx, r *Report, tr map[string]*trSite) {
 		r.Bad(name+"|transcript calls", m.Fn.Pos(), "the constructor does not make all four RAKP computations")
 		return
 	}
+	c.checkStateReads(r, m, name, nil)
 	for _, st := range []*trSite{s2, s3, ss, s4} {
 		r.Check(st.OverM1M2, name+"|"+st.Kind+" messages", st.Pos, "computed over the RAKP1 sent and the RAKP2 received", "computation is not over the RAKP Message 1 that was sent and the RAKP Message 2 that was received")
 	}
@@ -531,6 +613,9 @@ func checkKeyWiring(c *Ctx, r *Report, tr map[string]*trSite) {
 		}
 		a := p.AP(ld.X)
 		if a.Root != ssa.Value(m.Opts) {
+			if root, last := canonRootSel(ld.X); root == ssa.Value(m.Opts) {
+				return last
+			}
 			return ""
 		}
 		return a.SelString()
@@ -578,7 +663,7 @@ func checkKeyWiring(c *Ctx, r *Report, tr map[string]*trSite) {
 	r.Check(okS, name+"|SIK key", ss.Pos, "SIK HMAC keyed by KG, or by the password exactly when len(KG)==0", whyS)
 	// ICV hash keyed by the SIK value
 	_, key4 := hashFrom(s4.Hash)
-	r.Check(key4 == cs, name+"|ICV key", s4.Pos, "RAKP4 ICV HMAC keyed by the computed SIK", "the RAKP4 ICV HMAC is not keyed by the SIK computed from this exchange")
+	r.Check(key4 != nil && canonEq(key4, cs), name+"|ICV key", s4.Pos, "RAKP4 ICV HMAC keyed by the computed SIK", "the RAKP4 ICV HMAC is not keyed by the SIK computed from this exchange")
 	// K generator keyed by the SIK; session.SIK field = sik; generator stored in session
 	lit, _, _ := complitFieldsAlloc(m.Lit)
 	var kgen ssa.Value
@@ -591,14 +676,14 @@ func checkKeyWiring(c *Ctx, r *Report, tr map[string]*trSite) {
 		inner := stripConv(kgen)
 		if f, _, ok := complitFields(inner); ok {
 			if hv, has := f[fAkmHash]; has {
-				if _, key := hashFrom(hv); key == cs {
+				if _, key := hashFrom(canonValue(hv)); key != nil && canonEq(key, cs) {
 					okK = true
 				}
 			}
 		}
 	}
 	r.Check(okK, name+"|K_n key", m.Lit.Pos(), "additional key material HMAC keyed by the SIK and stored in the session", "the K_n generator stored in the session is not an HMAC keyed by the computed SIK")
-	r.Check(lit["SIK"] == cs, name+"|session.SIK", m.Lit.Pos(), "session SIK field is the computed SIK", "the session's SIK field is not the SIK computed from this exchange")
+	r.Check(lit["SIK"] != nil && canonEq(lit["SIK"], cs), name+"|session.SIK", m.Lit.Pos(), "session SIK field is the computed SIK", "the session's SIK field is not the SIK computed from this exchange")
 
 	// same hash family for all HMACs: all from methods of one params object selected by the response's authentication algorithm
 	checkAlgorithmTables(c, r)
@@ -1262,8 +1347,12 @@ func checkDriverOrder(c *Ctx, r *Report, tr map[string]*trSite) {
 		for fld, src := range map[string]string{"PrivilegeLevelLookup": "PrivilegeLevelLookup", "MaxPrivilegeLevel": "MaxPrivilegeLevel", "Username": "Username"} {
 			v := f[fld]
 			ld, isLd := v.(*ssa.UnOp)
-			if !isLd || apOf(ld.X).Root != ssa.Value(m.Opts) || apOf(ld.X).SelString() != src {
+			if !isLd {
 				okOpts = false
+			} else if apOf(ld.X).Root != ssa.Value(m.Opts) || apOf(ld.X).SelString() != src {
+				if root, last := canonRootSel(ld.X); root != ssa.Value(m.Opts) || last != src {
+					okOpts = false
+				}
 			}
 		}
 		r.Check(okOpts, name+"|RAKP1 options", al.Pos(), "lookup mode, level and username from the caller's options", "RAKP Message 1 fields do not come from the caller's options")
@@ -1365,6 +1454,13 @@ func (c *Ctx) transcriptSites(m *ctorModel) (map[string]*trSite, []string) {
 				out = call
 			}
 		})
+		if out == nil {
+			viewInstrs(m.Fn, func(in ssa.Instruction) {
+				if call, ok := in.(*ssa.Call); ok && call.Call.StaticCallee() == fn {
+					out = call
+				}
+			})
+		}
 		return out
 	}
 	// (1) functions of the transcript signature
@@ -1380,8 +1476,15 @@ func (c *Ctx) transcriptSites(m *ctorModel) (map[string]*trSite, []string) {
 		}
 		st := &trSite{Kind: kind, Fn: fn, Pos: fn.Pos(), Shape: shape, Got: got}
 		if call := callTo(fn); call != nil {
-			st.Call, st.Hash, st.Result = call, call.Call.Args[0], call
-			st.OverM1M2 = call.Call.Args[1] == m.M1 && call.Call.Args[2] == m.M2
+			tp := c.transcriptParams(fn)
+			st.Call, st.Hash, st.Result = call, canonValue(call.Call.Args[tp.Hash]), call
+			if tp.Holder < 0 {
+				st.OverM1M2 = canonEq(call.Call.Args[tp.M1], m.M1) && canonEq(call.Call.Args[tp.M2], m.M2)
+			} else {
+				// the holder's message fields have one writer each: what it stores is what is hashed
+				s1, s2 := fieldStores[tp.F1], fieldStores[tp.F2]
+				st.OverM1M2 = len(s1) == 1 && len(s2) == 1 && canonEq(s1[0].Val, m.M1) && canonEq(s2[0].Val, m.M2)
+			}
 		}
 		sites[kind] = st
 	}
@@ -1404,11 +1507,7 @@ func (c *Ctx) transcriptSites(m *ctorModel) (map[string]*trSite, []string) {
 	return sites, extra
 }
 
-// inlineTranscripts runs E2 over the constructor and classifies every digest computation
-// (the bytes written into one hash object up to its Sum) made by the constructor's own
-// code on its success paths.
-func (c *Ctx) inlineTranscripts(m *ctorModel) map[string]*trSite {
-	out := map[string]*trSite{}
+func rakpTypeNames(c *Ctx) map[string]string {
 	names := map[string]string{}
 	if n := c.Named("pkg/ipmi", "RAKPMessage1"); n != nil {
 		names[types.TypeString(n, nil)] = "m1."
@@ -1416,6 +1515,15 @@ func (c *Ctx) inlineTranscripts(m *ctorModel) map[string]*trSite {
 	if n := c.Named("pkg/ipmi", "RAKPMessage2"); n != nil {
 		names[types.TypeString(n, nil)] = "m2."
 	}
+	return names
+}
+
+// inlineTranscripts runs E2 over the constructor and classifies every digest computation
+// (the bytes written into one hash object up to its Sum) made by the constructor's own
+// code on its success paths.
+func (c *Ctx) inlineTranscripts(m *ctorModel) map[string]*trSite {
+	out := map[string]*trSite{}
+	names := rakpTypeNames(c)
 	// one object of each type only, else a name would not identify the message
 	nM1, nM2 := 0, 0
 	viewInstrs(m.Fn, func(in ssa.Instruction) {
@@ -1520,4 +1628,28 @@ func (c *Ctx) inlineTranscripts(m *ctorModel) map[string]*trSite {
 		}
 	}
 	return out
+}
+
+func isByte(t types.Type) bool {
+	b, ok := t.Underlying().(*types.Basic)
+	return ok && b.Kind() == types.Uint8
+}
+
+// canonRootSel peels the field selections of an address down to the pointer they start from,
+// read through single-writer fields of state structs (canonValue): `&h.opts.Password` starts
+// from the options the handshake was created with. It returns that pointer and the name of
+// the last field selected.
+func canonRootSel(addr ssa.Value) (ssa.Value, string) {
+	last := ""
+	for i := 0; i < 6; i++ {
+		fa, ok := addr.(*ssa.FieldAddr)
+		if !ok {
+			break
+		}
+		if f := structField(fa.X.Type(), fa.Field); f != nil && last == "" {
+			last = f.Name()
+		}
+		addr = fa.X
+	}
+	return canonValue(addr), last
 }
